@@ -968,7 +968,9 @@ def _readUrl(  # noqa: C901
                     # at least in GAE
                     decodedCssText = content.decode(encoding if encoding else 'utf-8')
 
-            except UnicodeDecodeError as e:
+            except Exception as e:
+                # the encoding named by the content may be unknown, wrong or
+                # no text encoding at all: each codec fails in its own way
                 log.warn(e, neverraise=True)
                 decodedCssText = None
 
